@@ -12,6 +12,12 @@ D == Sym("d", TBV(2))
 F0 == Sym("k0", TInt)              \* a 0-ary "function"
 Half == RealC(<<1, 2>>)
 Two == RealC(<<2, 1>>)
+Third == RealC(<<1, 3>>)
+\* numbers beyond TLC's 32-bit integers are denoted symbolically by their exact decimal spelling (only their
+\* identity matters here): "Q:num/den" / "Z:num", as written by harness/term_io.py in SYMBOLIC_BIG mode
+RealBig(sp) == Node("real_constant", <<>>, sp, TNone, <<0, 0>>, <<>>, <<>>)
+IntBig(sp) == Node("int_constant", <<>>, sp, TNone, <<0>>, <<>>, <<>>)
+ThirdAsFloat == RealBig("Q:6004799503160661/18014398509481984")       \* the double nearest to 1/3, exactly
 AndPQ == Op("and", <<P, Q>>)
 K0 == ArrV(TInt, <<IntC(0)>>)
 K0x == ArrV(TInt, <<IntC(0), IntC(1), IntC(5), IntC(2), IntC(7)>>)
@@ -47,7 +53,15 @@ Calls == <<
   Call("Xor(p,q)", Op("not", <<Op("iff", <<P, Q>>)>>), "", ""), Call("Not(Iff(p,q))", Op("not", <<Op("iff", <<P, Q>>)>>), "", ""),
   Call("NotEquals(x,2)", Op("not", <<Op("equals", <<X, IntC(2)>>)>>), "", ""),
   Call("EqualsOrIff(p,q)", Op("iff", <<P, Q>>), "", ""), Call("Iff(p,q)", Op("iff", <<P, Q>>), "", ""),
-  Call("Pow(Real(2),Real(2))", RealC(<<4, 1>>), "", ""), Call("Real(4)", RealC(<<4, 1>>), "real", "4") >>
+  Call("Pow(Real(2),Real(2))", RealC(<<4, 1>>), "", ""), Call("Real(4)", RealC(<<4, 1>>), "real", "4"),
+  \* a non-dyadic value: the pair, the Fraction and the (inexact) float are three different numbers / keys
+  Call("Real((1,3))", Third, "real", "(1,3)"), Call("Real(Fraction(1,3))", Third, "real", "1/3"), Call("Real((2,6))", Third, "real", "(2,6)"),
+  Call("Real(1/3.0)", ThirdAsFloat, "real", "float(1/3)"), Call("Real(Fraction(1/3.0))", ThirdAsFloat, "real", "float(1/3)"),
+  \* magnitudes beyond the 53-bit mantissa of a double
+  Call("Real((2**60+1,1))", RealBig("Q:1152921504606846977/1"), "real", "(2**60+1,1)"),
+  Call("Real(2**60)", RealBig("Q:1152921504606846976/1"), "real", "2**60"),
+  Call("Real(float(2**60))", RealBig("Q:1152921504606846976/1"), "real", "2**60"),
+  Call("Int(2**60+1)", IntBig("Z:1152921504606846977"), "int", "2**60+1"), Call("Int(2**60)", IntBig("Z:1152921504606846976"), "int", "2**60") >>
 
 NCalls == Len(Calls)
 Den(i) == Calls[i].den
